@@ -552,6 +552,9 @@ class PipelineBuilder:
                 case _:  # pragma: nocover
                     raise RuntimeError(f"invalid node {node}")
 
+        # literal nodes are created in the order the literal-valued connections were
+        # declared; like the wiring and the aliases, write them sorted by name
+        cfg.literals = dict(sorted(cfg.literals.items(), key=lambda kv: kv[0]))
         cfg.aliases = {a: t.name for (a, t) in sorted(self._aliases.items(), key=lambda kv: kv[0])}
 
         if self._default:
